@@ -54,6 +54,7 @@ def call(hash_seed, request, timeout=120.0, sockdir=None, want_pid=None):
         s.connect(sock_path(sockdir, hash_seed))
         req = dict(request)
         req.setdefault("cap_s", timeout)
+        req.setdefault("cpu_cap_s", int(os.environ.get("VERIF_CPU_CAP_S", "90")))
         send_msg(s, req)
         first = recv_msg(s)
         if first is None:
